@@ -88,4 +88,18 @@ REGISTRY = {
         "level_note": KERNEL_NOTE + " Bit-identity is proved for stored values in exact arithmetic; FFTW thread-dependent rounding is outside the model.",
         "technique": "Lean 4 proof (decide over regenerated kernel table + order-independence theorem); trace correspondence of call-site aliasing",
     },
+    "C16": {
+        "modules": ["SophtVerif.Props.C16"],
+        "required_theorems": ["C16_dt_pos", "C16_prefac_linear", "C16_cfl", "C16_cfl_every_cell", "C16_diffusion_limit",
+                              "C16_dt_inviscid", "C16_max_principle_kernel_2d", "C16_max_principle_kernel_3d",
+                              "C16_max_principle_step_2d", "C16_recommended_dt_is_monotone"],
+        "correspondence": ["corr.dt:run", "corr.cases2d:run_wrappers"],
+        "oracle": "corr.dt:oracle",
+        "trusted_base": TB_KERNEL + ["Model/Dt.lean is a hand model of compute_advection_diffusion_stable_timestep, tied numerically (all three simulator classes, both precisions, zero/spike/random velocity, nu = 0)",
+                                     "numpy amax / sum / fabs are taken as exact maximum / sum of absolute values"],
+        "assumptions": ["exact arithmetic (the float32/float64 evaluation of the formula is compared within 64 ulp)"],
+        "level_text": "Machine-checked proof (Lean 4): for all cfl, dx > 0, nu >= 0, tol > 0 and every velocity field (through its maximum, including zero) the modelled dt is positive and finite, linear in the prefactor, satisfies dt*sum|u|/dx <= cfl in every cell and nu*dt/dx^2 <= 0.9/(2 dim) exactly (nu = 0 handled as an explicit branch); for 0 <= r <= 1/(2 dim) the generated 2D/3D diffusion stencil update is a convex combination of the stencil values, and the 2D diffusion time-step program leaves the ring unchanged and creates no new extrema. A genuine defect (absolute slack +10 eps on the diffusion limit) was found and repaired (fix: 2b8a4fc).",
+        "level_note": KERNEL_NOTE + " The dt formula is a hand model validated by numeric correspondence.",
+        "technique": "Lean 4 proof (ordered-field inequalities) + numeric correspondence of the dt model",
+    },
 }
